@@ -3,13 +3,14 @@
   against the `BlockingExecutor` (through the data specification `Spec/AsyncExecSpec.lean`).
   Helper lemmas: `Lemmas/ExecEv.lean`.
 -/
-import PyGqlModel.Lemmas.ExecEv
+import PyGqlModel.Lemmas.ExecErr
+import PyGqlModel.Lemmas.ExecLive
 
 set_option linter.unusedVariables false
 set_option linter.unusedSimpArgs false
 
 namespace PyGql.Props.C08
-open PyGql.Exec
+open PyGql.AsyncExec
 
 /-- the blocking executor computes the specification -/
 private theorem runBlocking_spec (op : Op) :
@@ -68,20 +69,13 @@ private theorem runAsync_spec (op : Op) (schedule : List Nat) :
       cases ho : outcomeOf (runSched top s [] schedule).top (runSched top s [] schedule).st <;>
         simp_all
 
-/-- The full statement of C08's first sentence on the model: data equal AND errors a permutation. -/
-def AsyncEqBlockingFull : Prop :=
-  ∀ (op : Op) (schedule : List Nat) (v : V) (errs : List Err),
-    (runAsync op schedule).outcome = .ok v errs →
-    ∃ errs', (runBlocking op).outcome = .ok v errs' ∧ errs.Perm errs'
-
-/-- **async_eq_blocking_partial.** For every operation, every assignment of resolvers to
-    {sync, deferred, nested-deferred} and EVERY schedule (any list of indices into the queue of
-    outstanding tasks — complete or not): whenever the generic executor has produced the overall result,
-    the blocking executor produces a result with the SAME data; whenever it has failed, the blocking
-    executor fails too; and it never produces a malformed result.
-    Missing w.r.t. `AsyncEqBlockingFull`: that the two error lists are permutations of each other
-    (compared by the correspondence check on every generated operation and schedule). -/
-theorem async_eq_blocking_partial (op : Op) (schedule : List Nat) :
+/-- **async_outcome_agrees** (also covers failing and unfinished runs). For every operation,
+    every assignment of resolvers to {sync, deferred, nested-deferred, already-finished} and EVERY schedule
+    (any list of indices into the queue of outstanding tasks — complete or not): whenever the generic
+    executor has produced the overall result, the blocking executor produces a result with the SAME data;
+    whenever it has failed, the blocking executor fails too; and it never produces a malformed result.
+    (The error lists are the subject of `async_eq_blocking`.) -/
+theorem async_outcome_agrees (op : Op) (schedule : List Nat) :
     match (runAsync op schedule).outcome with
     | .ok v _ => ∃ errs', (runBlocking op).outcome = .ok v errs'
     | .failed _ => ∃ e', (runBlocking op).outcome = .failed e'
@@ -102,6 +96,65 @@ theorem async_eq_blocking_partial (op : Op) (schedule : List Nat) :
     rw [ha] at hb; exact hb
   | pending => trivial
   | junk => rw [ho] at ha; exact ha
+
+private theorem runBlocking_errs (op : Op) (kvs : List (String × V)) (hk : denFlds op.fields = some kvs) :
+    (runBlocking op).outcome = .ok (.obj kvs) (errsFlds [] op.fields) := by
+  have h := blockFields_den op.fields [] {}
+  unfold runBlocking
+  cases hr : blockFields [] op.fields {} with
+  | mk r s =>
+    rw [hr] at h
+    cases r with
+    | exc e => simp [resOpt, hk] at h
+    | ok kvs' =>
+      simp [resOpt, hk] at h; subst h
+      have := blockFields_errs op.fields [] {} kvs' s hr
+      simp only [this]; simp
+
+/-- **async_eq_blocking** (full strength of C08's first sentence on the model). For every operation, every
+    assignment of resolvers to {sync, deferred, nested-deferred, already-finished} and EVERY schedule:
+    when the generic executor on a deferred runtime has produced its result `(data, errors)`, the
+    blocking executor produces the SAME data and its error list is a PERMUTATION of `errors`. -/
+theorem async_eq_blocking (op : Op) (schedule : List Nat) (v : V) (errs : List Err)
+    (h : (runAsync op schedule).outcome = .ok v errs) :
+    ∃ errs', (runBlocking op).outcome = .ok v errs' ∧ errs.Perm errs' := by
+  have ha := runAsync_spec op schedule
+  rw [h] at ha
+  simp only at ha
+  cases hd : denFlds op.fields with
+  | none => simp [hd] at ha
+  | some kvs =>
+    simp [hd] at ha; subst ha
+    refine ⟨errsFlds [] op.fields, runBlocking_errs op kvs hd, ?_⟩
+    have hden : denFlds op.fields ≠ none := by simp [hd]
+    have hinv := execute_inv op {}
+    have herr := execute_errs op {} hden
+    unfold runAsync at h
+    cases hr : execute op {} with
+    | mk r s =>
+      rw [hr] at hinv herr h
+      cases r with
+      | exc e => exact absurd herr id
+      | ok top =>
+        simp only at hinv herr h
+        have hnf : (opSpec op).isFail = false := by simp [opSpec, hd, denToEv, EvR.isFail]
+        have hE : ErrInv top s (errsFlds [] op.fields) := by
+          intro e; have := herr e; simpa [cnt] using this
+        have hfin := runSched_errs (errsFlds [] op.fields) (opSpec op) hnf schedule top s [] hinv hE
+        have htop := runSched_inv (opSpec op) schedule top s [] hinv
+        generalize (runSched top s [] schedule).top = t at hfin htop h
+        generalize (runSched top s [] schedule).st = st at hfin h
+        have hf := htop.isFlat
+        apply List.perm_iff_count.mpr
+        intro e
+        have := hfin e
+        cases t with
+        | val x => cases x <;> simp [outcomeOf] at h; obtain ⟨_, he⟩ := h; subst he; simpa [pend, cnt] using this
+        | done r =>
+          cases r with
+          | val x => cases x <;> simp [outcomeOf] at h; obtain ⟨_, he⟩ := h; subst he; simpa [pend, cnt] using this
+          | _ => simp [flat] at hf
+        | _ => simp [outcomeOf] at h
 
 /-- **schedule_independent.** Two schedules that both produce the overall result produce the same data. -/
 theorem schedule_independent (op : Op) (s1 s2 : List Nat) (v1 v2 : V) (e1 e2 : List Err)
@@ -135,12 +188,8 @@ theorem unexpected_surfaces (op : Op) (schedule : List Nat) :
   · intro e he
     rw [he] at ha; exact ha
 
-/-- The full termination statement of C08 on the model: whenever no task is outstanding any more, the
-    overall result is there (not pending) — for every operation and every schedule. NOT proved here
-    (needs the counter invariant `done = #finished slots < target` lifted from `GState` to gather nodes
-    inside trees, and `tasks(tree) ⊆ queue`); the controlled-scheduler oracle checks it on every run
-    (`never-completes`), and `always_terminates_partial` (Props/C08.lean) proves it for the
-    `gather_futures` machine itself. -/
+/-- The termination statement of C08 on the model: whenever no task is outstanding any more, the
+    overall result is there (not pending) — for every operation and every schedule. -/
 def AlwaysTerminatesFull : Prop :=
   ∀ (op : Op) (schedule : List Nat),
     match execute op {} with
@@ -148,6 +197,32 @@ def AlwaysTerminatesFull : Prop :=
     | (.ok top, s) =>
       (runSched top s [] schedule).st.queue = [] →
       (runSched top s [] schedule).top.finished = true
+
+/-- **always_terminates.** For every operation, every assignment of resolver modes and EVERY schedule:
+    in every reachable state a pending overall result implies an outstanding task — every pending Future
+    in the tree waits (through exact `gather` counters `done = #finished < target`) for a task that is
+    still in the queue. Hence once all resolver tasks have completed, the execution has completed
+    (measure: outstanding tasks). Together with `unexpected_surfaces`: it has then either returned the
+    blocking data or failed with an unexpected resolver exception — never left pending. -/
+theorem always_terminates : AlwaysTerminatesFull := by
+  intro op schedule
+  have hinv := execute_inv op {}
+  have hlive := execute_live op {}
+  cases hr : execute op {} with
+  | mk r s =>
+    rw [hr] at hinv hlive
+    cases r with
+    | exc e => trivial
+    | ok top =>
+      simp only at hinv hlive ⊢
+      intro hq
+      have hl := runSched_live _ schedule top s [] hinv hlive
+      rw [hq] at hl
+      cases hf : (runSched top s [] schedule).top.finished with
+      | true => rfl
+      | false =>
+        obtain ⟨id, hid⟩ := live_pending [] _ hl hf
+        simp at hid
 
 /-- non-vacuity: `{ a: deferred→[exc] b: deferred→1 }`, `b` completes first, then `a` — the result fails;
     and with `a` fine the data is the blocking data although `b` completed first. -/
